@@ -417,7 +417,7 @@ func (vc *VC) applySpec(calleeName string, spec *FuncSpec, sig *types.Signature,
 	for i := 0; i < nres; i++ {
 		rt := sig.Results().At(i).Type()
 		var r string
-		if spec.Pure && nres == 1 && recvOrArgsOK(recv, argVals) {
+		if spec.Pure && nres >= 1 && recvOrArgsOK(recv, argVals) {
 			var rv SVal
 			args := argVals
 			if recv != nil {
@@ -436,7 +436,13 @@ func (vc *VC) applySpec(calleeName string, spec *FuncSpec, sig *types.Signature,
 				}
 				psig = types.NewSignatureType(nil, nil, nil, types.NewTuple(ps...), sig.Results(), false)
 			}
-			r = vc.define("pure", vc.d.sortOf(rt), vc.pureApp(pureKey, psig, rv, args))
+			if nres == 1 {
+				r = vc.define("pure", vc.d.sortOf(rt), vc.pureApp(pureKey, psig, rv, args))
+			} else {
+				// a pure function with several results: one uninterpreted symbol per result
+				one := types.NewSignatureType(nil, nil, nil, psig.Params(), types.NewTuple(sig.Results().At(i)), false)
+				r = vc.define("pure", vc.d.sortOf(rt), vc.pureApp(fmt.Sprintf("%s#%d", pureKey, i), one, rv, args))
+			}
 		} else {
 			r = vc.fresh("ret."+calleeName, vc.d.sortOf(rt))
 		}
